@@ -407,6 +407,7 @@ type foundFailure struct {
 	RunIndex int64           `json:"run_index"`
 	Fail     failure         `json:"fail"`
 	Replay   json.RawMessage `json:"replay"`
+	Original json.RawMessage `json:"original"`
 }
 
 type stats struct {
@@ -848,6 +849,32 @@ func doCheck(cfg tierCfg) int {
 		rp := &proc{name: "replay", bin: bin, timeout: 10 * time.Minute, args: []string{"-mode", "replay", "-file", v.replay},
 			env: []string{"GORACE=halt_on_error=1 exitcode=66"}}
 		rp.run()
+		if rp.exit != 1 && rp.exit != 66 && len(f.Original) > 2 && string(f.Original) != "null" && foundMode[i] != "burst" {
+			// the in-process minimisation may have relied on state left in the worker process:
+			// go back to the case as found and minimise it with fresh-process executions only
+			orig := filepath.Join(scratch, fmt.Sprintf("orig-%d.json", i))
+			os.WriteFile(orig, f.Original, 0o644)
+			op := &proc{name: "replay-original", bin: bin, timeout: 10 * time.Minute, args: []string{"-mode", "replay", "-file", orig}}
+			op.run()
+			if op.exit == 1 {
+				minOut := filepath.Join(scratch, fmt.Sprintf("min-%d.json", i))
+				mp := &proc{name: "minimise", bin: bin, timeout: 5 * time.Minute, args: []string{"-mode", "minimise", "-file", orig, "-out", minOut, "-seconds", "30"}}
+				mp.run()
+				src := orig
+				if mp.exit == 0 {
+					src = minOut
+				}
+				if raw, err := os.ReadFile(src); err == nil {
+					os.WriteFile(v.replay, indentJSON(raw), 0o644)
+				}
+				rp = &proc{name: "replay", bin: bin, timeout: 10 * time.Minute, args: []string{"-mode", "replay", "-file", v.replay}}
+				rp.run()
+				if rp.exit != 1 { // the fresh-process minimiser only keeps failing candidates; belt and braces
+					os.WriteFile(v.replay, indentJSON(f.Original), 0o644)
+					rp.exit = 1
+				}
+			}
+		}
 		switch rp.exit {
 		case 1, 66:
 			confirmed++
